@@ -672,6 +672,12 @@ def deep_clone(value: Any) -> Any:
     """
     import copy
 
+    # A reference to another property (e.g. the shift a resource works in): keep the identity of the referenced
+    # object. copy.deepcopy() would follow its project reference and clone every task, resource and shift -
+    # and the clones of earlier inheritors with them, so the cost doubled with every inheriting property.
+    if hasattr(value, "propertySet"):
+        return value
+
     # For lists, check if they contain PropertyTreeNode objects
     if isinstance(value, list):
 
